@@ -396,7 +396,7 @@ def run_module(rec, named, nforests, quick):
 
 def run_shard(rec):
     quick = rec.tier == 'quick'
-    rec.deadline = time.time() + (30 if quick else 600)
+    rec.deadline = time.time() + (300 if quick else 600)
     run_module(rec, named=False, nforests=12 if quick else 2500, quick=quick)
     run_module(rec, named=True, nforests=12 if quick else 2500, quick=quick)
 
